@@ -250,6 +250,29 @@ pub fn coset_table(
         }
     }
 
+    // All rows are complete now, but deductions made while scanning were never
+    // scanned themselves, so a relator may still fail to close (a coincidence
+    // that was not discovered).  Check every relator at every live row and
+    // merge until the table is consistent.
+    loop {
+        let mut changed = false;
+
+        for i in 0..table.len() {
+            for w in rels.iter().chain(if i == 0 { subgroup_gens.iter() } else { [].iter() }) {
+                let c = table.canon(i);
+                let (head, tail, gap, _) = scan_both_ways(&table, w, c);
+                if gap == 0 && head != tail {
+                    table.merge(head, tail);
+                    changed = true;
+                }
+            }
+        }
+
+        if !changed {
+            break;
+        }
+    }
+
     table.compact()
 }
 
